@@ -163,6 +163,40 @@ static Outcome run_offsets(const SpecCase& c) {
     if (!o.ok) {
         return o;
     }
+    // The same text must come out when the offsets are written on a stream
+    // that another generator function used before (one stream for both
+    // generated files): numbers are read the way a C++ compiler reads integer
+    // literals.
+    if (c.spec.id_scheme == "typeinfo" && up.comp) {
+        std::ostringstream os2;
+        generator::encode_dispatch_data(*up.comp, "POLICY", os2);
+        auto mark = os2.str().size();
+        generator().write_static_offsets<methods_view>(os2);
+        std::istringstream is2(os2.str().substr(mark));
+        std::string line;
+        std::size_t m = 0;
+        while (std::getline(is2, line) && o.ok) {
+            if (line.empty()) {
+                continue;
+            }
+            if (m >= lines.size()) {
+                break;
+            }
+            Offsets a = parse_offsets_line(lines[m]);
+            Offsets b = parse_offsets_line(line);
+            if (!b.parsed || a.slots != b.slots || a.strides != b.strides) {
+                o.fail("offsets-stream: method#" + std::to_string(m) +
+                       ": the offsets written after encode_dispatch_data on "
+                       "the same stream read as different numbers: '" + line +
+                       "'");
+            }
+            ++m;
+        }
+        o.classes.push_back("offsets_written_after_encode_on_same_stream");
+        if (!o.ok) {
+            return o;
+        }
+    }
     // a program compiled with the generated offsets dispatches like one that
     // reads them at run time, and the consistency check stays silent
     DispatchStats ds;
@@ -230,6 +264,7 @@ Property prop_C12(const std::string& variant) {
         o.id_schemes = ids_for(need_config(c.cfg));
         o.max_defs = 5;
         o.vp_anywhere = true;
+        o.many_methods = true; // slots of two digits and more
         c.spec = gen_spec(ch, o, size);
         // chk_vec and fast_vec have twins compiled with static offsets
         if (c.cfg == "chk_vec" || c.cfg == "fast_vec") {
